@@ -19,6 +19,7 @@ var syncDepth int
 
 func resetMonitors() {
 	frozenCells, frozenMaps, syncDepth = nil, nil, 0
+	servedBodies = map[string]string{}
 }
 
 func freezeValue(v value, kind string, seen map[*value]bool) {
